@@ -1,3 +1,21 @@
+def classify(case):
+    """'ix-responder-unauthenticated-msg1' (known finding F27) exactly for the cases that are judged under the reading
+    "a replayed - possibly altered - first message never replaces the primary": histories emitted with the list of
+    stage-1 payloads that are altered copies (peer-reported time rewritten) of a captured genuine one, and in which
+    such a copy is delivered."""
+    c = case.get("case") if isinstance(case, dict) else None
+    if not isinstance(c, dict) or case.get("kind") != "ix-responder-unauthenticated-msg1":
+        return None
+    forged = c.get("altered_stage1") or []
+    try:
+        for o in c.get("ops", []):
+            if o and o[0] == "stage1" and o[1] in forged:
+                return "ix-responder-unauthenticated-msg1"
+    except (TypeError, IndexError):
+        return None
+    return None
+
+
 SPEC = {
     "title": "Replayed handshakes do not create or replace tunnels",
     "design_ref": "DESIGN.md section 4, C09 / C10",
@@ -19,13 +37,19 @@ SPEC = {
                   "not newer than the primary tunnel for its first certificate address, accepted as responder, changes no map and creates "
                   "nothing. C10_tunnel_data / C10_log_sound: role, kept payload and time of every tunnel in Indexes are those of the "
                   "completed handshake (a log entry written exactly when a stage 1 or stage 2 completes) that created it.",
-    "level_note": "Modelled, not verified: Noise and certificate verification sit above the model (an operation is a message that already "
+    "level_note": "The peer-reported time (like everything in the first IX message) is UNAUTHENTICATED input when the responder acts "
+                  "on it: C10 is about re-delivering a message (same bytes: only a resend) and about a time that is not newer. An altered "
+                  "copy of a captured stage 1 (time rewritten, no key needed) is a different message with a newer time and does replace the "
+                  "primary: known finding F27, proved in the model as C10_forged_time_refuted and reproduced on the real code by the first "
+                  "corpus case (kind ix-responder-unauthenticated-msg1, judged under the reading 'a replayed, possibly altered, first "
+                  "message never replaces the primary'; the same history is also checked as an ordinary case). Modelled, not verified: Noise and certificate verification sit above the model (an operation is a message that already "
                   "passed handshake.Machine with a verified certificate; C05-C07 cover the Machine); a stage-1 payload is named by a "
                   "number (equal numbers iff equal bytes) and the node's own stage-0 message is assumed never to equal a received payload "
                   "(initiator tunnels never match the ErrAlreadySeen scan); relayed deliveries, the remote allow list and lighthouse "
                   "notifications are outside the model. If the same payload number is used with different certificates the resend is that "
                   "of the first tunnel in the list holding the payload (real payloads determine their certificate). The link model<->Go is "
                   "differential testing and as strong as its generator.",
+    "classify": classify,
     "gens": ["gen_hsmgr"],
     "props": ["props/C10.v"],
     "corr": ["corr/HsMgr_corr.v"],
